@@ -23,11 +23,11 @@ type PropMap struct {
 type PropEntry struct {
 	Title          string              `json:"title"`
 	Pkgs           []string            `json:"pkgs"`
-	Units          []string            `json:"units"`             // unit short names (substring match on exact short name)
+	Units          []string            `json:"units"`                    // unit short names (substring match on exact short name)
 	ThoroughUnits  []string            `json:"thorough_units,omitempty"` // units verified in the thorough tier only (obligations that need more than the quick time limit); the quick tier uses their contracts
-	Only           map[string][]string `json:"only,omitempty"`    // unit -> obligation-name substrings owned by this property (default: all)
-	Exclude        map[string][]string `json:"exclude,omitempty"` // unit -> obligation-name substrings owned by another property
-	ThoroughOnly   map[string][]string `json:"thorough_only,omitempty"` // unit -> obligation-name substrings checked in the thorough tier only (they need more than the quick time limit); assumed after their call site as always
+	Only           map[string][]string `json:"only,omitempty"`           // unit -> obligation-name substrings owned by this property (default: all)
+	Exclude        map[string][]string `json:"exclude,omitempty"`        // unit -> obligation-name substrings owned by another property
+	ThoroughOnly   map[string][]string `json:"thorough_only,omitempty"`  // unit -> obligation-name substrings checked in the thorough tier only (they need more than the quick time limit); assumed after their call site as always
 	MinObligations int                 `json:"min_obligations"`
 	CheckLocks     bool                `json:"check_locks,omitempty"`
 	LeanLemmas     []string            `json:"lean_lemmas,omitempty"` // files under /verif checked with `lean` in the thorough tier (induction lemmas the SMT solvers cannot do)
